@@ -41,7 +41,12 @@ type Case struct {
 	Offer    uint32 `json:"offer,omitempty"`
 	First    bool   `json:"first,omitempty"`    // no Attach and no prelude: what the peer sends in the scripted part are the very first bytes after its Rversion
 	Announce uint32 `json:"announce,omitempty"` // size announced by the fault frames announce-hdr / announce-part / announce-full (above the negotiated msize)
-	Via      string `json:"via,omitempty"`      // "mount": the client is made by MountConn, and the one outstanding call is the Attach inside it; "early": the outstanding call is Connect itself (see early_test.go)
+	Via      string `json:"via,omitempty"`      // "mount": the client is made by MountConn, and the one outstanding call is the Attach inside it; "early": the outstanding call is Connect itself (see early_test.go); "mounted": the client is made by a completed MountConn (it has a Root fid) and the session then runs on it
+	// what the peer does with requests that reach it from the failure on (other
+	// than the late caller's): "" (silent) reads them and answers nothing;
+	// "answer" answers each at once; "slow" answers them (and sends the withheld
+	// rest of the reply stream) only when every outstanding call has returned
+	Peer string `json:"peer,omitempty"`
 	// entry storm (TestPropEntryStorm)
 	Callers int    `json:"callers,omitempty"` // goroutines entering Rpc when the connection fails
 	Rounds  int    `json:"rounds,omitempty"`  // fresh connections failed one after the other
@@ -118,6 +123,61 @@ func settle(err error) error {
 	}
 	hx.Inconclusive(h.msg)
 	return nil
+}
+
+// tidyUnmount is the Unmount on the way out of a case: a client whose Unmount
+// blocks (that is judged where Unmount is the failure) must not take the
+// harness with it.
+func tidyUnmount(clnt *go9p.Clnt) {
+	ch := make(chan struct{})
+	go func() { clnt.Unmount(); close(ch) }()
+	t := time.NewTimer(2 * time.Second)
+	defer t.Stop()
+	select {
+	case <-ch:
+	case <-t.C:
+	}
+}
+
+// mountConn makes a client by MountConn against the scripted peer, which
+// answers its Tattach.
+func mountConn(p *peer.Peer, offer uint32) (*go9p.Clnt, error) {
+	type mres struct {
+		clnt *go9p.Clnt
+		err  error
+	}
+	mch := make(chan mres, 1)
+	go func() {
+		cl, e := go9p.MountConn(p.Lib, "c10", offer-go9p.IOHDRSZ, go9p.OsUsers.Uid2User(0))
+		mch <- mres{cl, e}
+	}()
+	rch := make(chan *peer.Req, 1)
+	go func() { rch <- nextReq(p) }()
+	select {
+	case m := <-mch:
+		if m.clnt != nil {
+			tidyUnmount(m.clnt)
+		}
+		return nil, fmt.Errorf("MountConn returned (%v) before the peer answered its Tattach", m.err)
+	case r := <-rch:
+		if r == nil {
+			return nil, hang("peer: the Tattach of MountConn did not arrive")
+		}
+		if r.Err != nil || r.Msg.Type != ref9p.Tattach {
+			return nil, fmt.Errorf("client sent a frame that is not a valid Tattach: %v", r.Err)
+		}
+		if err := p.Write(p.Encode(peer.Answer(r.Msg)), nil); err != nil {
+			return nil, fmt.Errorf("peer write: %v", err)
+		}
+	}
+	m, ok := await(mch)
+	if !ok {
+		return nil, hang("MountConn did not return within %v although its Tattach was answered", deadline)
+	}
+	if m.err != nil || m.clnt == nil || m.clnt.Root == nil {
+		return nil, fmt.Errorf("MountConn on a healthy connection: %v", m.err)
+	}
+	return m.clnt, nil
 }
 
 type result struct {
@@ -260,16 +320,26 @@ func run(c *Case) error {
 	case "early":
 		return runEarly(c)
 	}
-	p := peer.New("c10", c.Msize, true)
+	mounted := c.Via == "mounted"
+	if c.Via != "" && !mounted || c.Peer != "" && c.Peer != "answer" && c.Peer != "slow" || mounted && (c.First || offered(c) < 64) {
+		return fmt.Errorf("harness: via %q, peer %q, first %v, offer %d", c.Via, c.Peer, c.First, offered(c))
+	}
+	// (MountConn always asks for 9P2000.u: the peer decides the dialect)
+	p := peer.New("c10", c.Msize, !mounted || c.Dotu)
 	p.Start(false)
 	ctl := sched.New(c.Holds)
 	ctl.Timeout = 400 * time.Millisecond
 	defer sched.Install(ctl)()
-	clnt, err := go9p.Connect(p.Lib, offered(c), c.Dotu)
-	if err != nil {
+	var clnt *go9p.Clnt
+	var err error
+	if mounted {
+		if clnt, err = mountConn(p, offered(c)); err != nil {
+			return err
+		}
+	} else if clnt, err = go9p.Connect(p.Lib, offered(c), c.Dotu); err != nil {
 		return fmt.Errorf("Connect: %v", err)
 	}
-	defer clnt.Unmount()
+	defer tidyUnmount(clnt)
 	labelMsize(c, clnt)
 	// answer helper for the sequential part
 	serveOne := func() error {
@@ -283,8 +353,8 @@ func run(c *Case) error {
 		return p.Write(p.Encode(peer.Answer(r.Msg)), nil)
 	}
 	user := go9p.OsUsers.Uid2User(0)
-	var root *go9p.Fid
-	if !c.First {
+	root := clnt.Root
+	if !c.First && !mounted {
 		ch := make(chan error, 1)
 		go func() { var e error; root, e = clnt.Attach(nil, user, "c10"); ch <- e }()
 		if err := serveOne(); err != nil {
@@ -433,7 +503,46 @@ func run(c *Case) error {
 	} else {
 		close(lateDone)
 	}
+	// ---- what the peer does with further requests from the failure on
+	released := make(chan struct{}) // (slow peer) every outstanding call has returned
+	stopPeer := make(chan struct{})
+	defer close(stopPeer)
+	if c.Peer != "" {
+		go func() {
+			var held [][]byte
+			flushed := false
+			for {
+				select {
+				case <-stopPeer:
+					return
+				case <-released:
+					if !flushed && c.Peer == "slow" {
+						_ = p.Write(S[cut:], nil)
+						for _, b := range held {
+							_ = p.Write(b, nil)
+						}
+					}
+					flushed = true
+				default:
+				}
+				r, ok := p.Next(2 * time.Millisecond)
+				if !ok {
+					return
+				}
+				if r == nil || r.Err != nil || r.Msg.Fid == 999999 {
+					continue
+				}
+				hx.ExtraAdd("requests_sent_during_or_after_the_failure", 1)
+				if b := p.Encode(peer.Answer(r.Msg)); c.Peer == "slow" && !flushed {
+					held = append(held, b)
+				} else {
+					_ = p.Write(b, nil)
+				}
+			}
+		}()
+	}
 	// ---- the failure
+	unmounted := make(chan struct{})
 	switch c.Fail {
 	case "eof":
 		p.End.CloseWrite()
@@ -455,7 +564,7 @@ func run(c *Case) error {
 			time.Sleep(250 * time.Microsecond)
 		}
 		time.Sleep(2 * time.Millisecond)
-		clnt.Unmount()
+		go func() { clnt.Unmount(); close(unmounted) }()
 	default:
 		var dup *ref9p.Msg
 		victim := uint16(1)
@@ -476,21 +585,30 @@ func run(c *Case) error {
 		}
 		inject(fb, fcuts)
 	}
-	// ---- every outstanding call returns
+	// ---- Unmount returns, and every outstanding call returns
 	waitAll := make(chan struct{})
 	go func() { wg.Wait(); close(waitAll) }()
-	if _, ok := await(waitAll); !ok {
-		pend := 0
+	pending := func() (pend int) {
 		for _, r := range results {
 			if r == nil {
 				pend++
 			}
 		}
+		return
+	}
+	if c.Fail == "unmount" {
+		if _, ok := await(unmounted); !ok {
+			return hang("Unmount did not return within %v (client made by %s, %d calls outstanding of which %d have not returned either, the peer %s further requests)", deadline, madeBy(c), n, pending(), peerDoes(c))
+		}
+	}
+	if _, ok := await(waitAll); !ok {
+		pend := pending()
 		return hang("%d of %d outstanding calls did not return within %v after the failure (%s at byte %d of %d)", pend, n, deadline, c.Fail, cut, len(S))
 	}
 	if _, ok := await(lateDone); !ok {
 		return hang("a call that entered Rpc while the connection was failing did not return within %v", deadline)
 	}
+	close(released) // (a slow peer now sends what it withheld, into whatever is left of the connection)
 	if late != nil && late.err == nil {
 		return fmt.Errorf("a call made while the connection was failing returned success although no reply was sent for it")
 	}
@@ -663,6 +781,23 @@ func runMount(c *Case) error {
 	return nil
 }
 
+func madeBy(c *Case) string {
+	if c.Via == "mounted" {
+		return "MountConn"
+	}
+	return "Connect"
+}
+
+func peerDoes(c *Case) string {
+	switch c.Peer {
+	case "answer":
+		return "answers"
+	case "slow":
+		return "answers only after the outstanding calls returned"
+	}
+	return "reads but does not answer"
+}
+
 func replyLen(p *peer.Peer, m *ref9p.Msg) int { return len(p.Encode(peer.Answer(m))) }
 
 func execute(test string, c *Case) error {
@@ -672,6 +807,7 @@ func execute(test string, c *Case) error {
 	case "entrystorm": // (non-trivial or not is decided by what the rounds reached)
 		hx.Label("entry storm fail=" + c.Fail)
 		hx.Label("entry storm mode=" + c.Mode)
+		hx.Label("entry storm client made by " + madeBy(c))
 	case "storm":
 		hx.Label("storm fail=" + c.Fail)
 		b, _ := json.Marshal(c)
@@ -681,6 +817,9 @@ func execute(test string, c *Case) error {
 		hx.Label(fmt.Sprintf("outstanding=%d", len(c.Calls)))
 		if c.Via != "" {
 			hx.Label("client made by " + c.Via)
+		}
+		if c.Fail == "unmount" {
+			hx.Label(fmt.Sprintf("Unmount: client made by %s, peer %s further requests, calls outstanding: %v", madeBy(c), peerDoes(c), len(c.Calls) > 0 || c.Late))
 		}
 		if c.Announce > 0 {
 			hx.Label("announced size " + announceClass(c))
@@ -945,6 +1084,56 @@ func TestEnumMount(t *testing.T) {
 	hx.Exhaustive("MountConn x negotiated/offered msize (4 pairs) x 2 dialects x {every cut offset of the Rattach x {EOF, error}; fault frames (older table, announced sizes) instead of the Rattach / after it in the same Read / in the next Read}")
 }
 
+var peerModes = []string{"", "answer", "slow"}
+
+// TestEnumMounted: the session runs on a client made by a completed MountConn
+// (such a client has a Root fid; one made by Connect has none). Unmount while
+// calls are outstanding against a peer that has fallen silent, answers, or
+// answers too late: Unmount itself and every outstanding call must return. The
+// other failure kinds on such a client, more thinly.
+func TestEnumMounted(t *testing.T) {
+	idx := 0
+	one := func(c *Case) {
+		idx++
+		if hx.NShards > 1 && idx%hx.NShards != hx.Shard {
+			return
+		}
+		if err := execute("mounted", c); err != nil {
+			hx.Violation("mounted", c, err.Error())
+			t.Fatalf("%v", err)
+		}
+	}
+	calls, orders := []string{"stat", "read", "write", "open"}, [][]int{{}, {0}, {1, 0}, {2, 0, 1}, {0, 3, 1, 2}}
+	for _, pm := range peerModes {
+		for _, dotu := range []bool{false, true} {
+			for n := 0; n <= 4; n++ {
+				for ci, cut := range []int{0, 30, 100, -1} {
+					if n == 0 && ci > 0 {
+						continue
+					}
+					for variant := 0; variant < 3; variant++ { // plain; one more call's request Write in progress (undrained); one more call just enqueued
+						c := &Case{Via: "mounted", Peer: pm, Dotu: dotu, Msize: 1024, Offer: []uint32{0, 8192}[(n+ci)%2], Prelude: (n + ci + variant) % 3,
+							Calls: calls[:n], Order: orders[n], Cut: cut, Chunk: []int{0, 1, 5}[(n+ci)%3], Fail: "unmount", After: 1 + (n+variant)%2,
+							Late: variant > 0, WBlock: variant == 1}
+						one(c)
+					}
+				}
+			}
+			for _, fk := range []string{"eof", "err", "badtype", "size3", "oversize-hdr", "unknowntag", "duptag"} {
+				for _, n := range []int{0, 2, 3} {
+					for _, cut := range []int{0, 100} {
+						if n == 0 && cut > 0 {
+							continue
+						}
+						one(&Case{Via: "mounted", Peer: pm, Dotu: dotu, Msize: 512, Offer: []uint32{0, 8192}[n%2], Prelude: n % 2, Calls: calls[:n], Order: orders[n], Cut: cut, Fail: fk, After: 2, Joined: n == 3})
+					}
+				}
+			}
+		}
+	}
+	hx.Exhaustive("client made by a completed MountConn x peer from the failure on {silent, answering, answering only after the outstanding calls returned} x 2 dialects x {Unmount x 0..4 outstanding calls x cut {0, inside the first reply, further on, all delivered} x {no other caller, one more call's Write in progress, one more call just enqueued}; {EOF, error, undefined type, size 3, oversize header, unknown tag, second reply for a completed tag} x {0,2,3} outstanding calls x before / after a delivered reply}")
+}
+
 var callerPts = []string{"rpcnb.enqueued", "rpcnb.sent"}
 var sendPts = []string{"clnt.send.dequeued", "clnt.send.written"}
 var recvPts = []string{"clnt.recv.closing", "clnt.recv.fanout"}
@@ -969,6 +1158,10 @@ func TestEnumInterleavings(t *testing.T) {
 							h = sched.Hold{Who: "clnt", At: rp, UntilWho: late, UntilPoint: cp}
 						}
 						c := &Case{Dotu: idx%2 == 0, Msize: 512, Calls: []string{"read", "stat"}[:n], Order: []int{0, 1}[:n], Cut: 0, Fail: fk, After: 1, Late: true, Holds: []sched.Hold{h}}
+						if fk == "unmount" && n == 2 {
+							// (Unmount with calls outstanding: on a client made by MountConn)
+							c.Via, c.Peer = "mounted", peerModes[idx%3]
+						}
 						if err := execute("interleave", c); err != nil {
 							hx.Violation("interleave", c, err.Error())
 							t.Fatalf("%+v: %v", h, err)
@@ -978,7 +1171,7 @@ func TestEnumInterleavings(t *testing.T) {
 			}
 		}
 	}
-	hx.Exhaustive("late caller at {rpcnb.enqueued, rpcnb.sent, clnt.send.dequeued, clnt.send.written} x receiver at {clnt.recv.closing, clnt.recv.fanout} x 2 directions x {EOF, error, Unmount} x {0,2} other outstanding calls")
+	hx.Exhaustive("late caller at {rpcnb.enqueued, rpcnb.sent, clnt.send.dequeued, clnt.send.written} x receiver at {clnt.recv.closing, clnt.recv.fanout} x 2 directions x {EOF, error, Unmount} x {0,2} other outstanding calls (Unmount with 2: on a client made by MountConn, peer silent / answering / slow in turn)")
 }
 
 // TestEnumBlockedWriter: the failure happens while the writer goroutine is
@@ -1049,8 +1242,14 @@ func sessionsDraw(t *testing.T, hung *error) {
 				c.Announce = rapid.Uint32Range(c.Msize+1, offered(c)).Draw(t, "announcebetween")
 			}
 		}
-		if via := rapid.IntRange(0, 9).Draw(t, "via"); c.Fail != "unmount" && via < 2 {
-			c.Via, c.Late, c.WBlock = []string{"mount", "early"}[via], false, false
+		// what the peer does with requests it receives from the failure on
+		c.Peer = rapid.SampledFrom([]string{"", "", "answer", "slow"}).Draw(t, "peer")
+		switch via := rapid.IntRange(0, 9).Draw(t, "via"); {
+		case c.Fail != "unmount" && via < 2:
+			c.Via, c.Late, c.WBlock, c.Peer = []string{"mount", "early"}[via], false, false, ""
+		case via < 5:
+			// the session runs on a client made by a completed MountConn
+			c.Via, c.First = "mounted", false
 		}
 		if *hung != nil {
 			return
